@@ -4,9 +4,6 @@ package x25519
 // scheduler over instrumented accesses to package-level variables), plus the free-running -race pass.
 
 import (
-	"runtime/debug"
-	"io"
-	"runtime"
 	"bytes"
 	"crypto"
 	stded "crypto/ed25519"
@@ -14,9 +11,12 @@ import (
 	"crypto/sha512"
 	"encoding/json"
 	"fmt"
+	"io"
 	"math"
 	"math/big"
 	"os"
+	"runtime"
+	"runtime/debug"
 	"sort"
 	"strings"
 	"sync"
@@ -580,17 +580,17 @@ func (failingReader) Read(p []byte) (int, error) { return 0, fmt.Errorf("entropy
 // ---- child process protocol -----------------------------------------------------------------------------
 
 type c15req struct {
-	Mode      string         `json:"mode"` // "seq" | "sched" | "race"
-	Ops       []int          `json:"ops,omitempty"`
-	Threads   [][]int        `json:"threads,omitempty"`
-	Choices   []int          `json:"choices,omitempty"`
-	PointVars []string       `json:"point_vars,omitempty"`
-	Stride    map[string]int `json:"stride,omitempty"`
-	Tracking  bool           `json:"tracking,omitempty"`
-	Reps      int            `json:"reps,omitempty"`
-	NoGC      bool           `json:"nogc,omitempty"`       // mode "seq": garbage collector off (pools keep their objects)
-	Parked    int            `json:"parked,omitempty"`     // mode "parked": number of calls in flight
-	Gomaxprocs int           `json:"gomaxprocs,omitempty"` // mode "parked"
+	Mode       string         `json:"mode"` // "seq" | "sched" | "race"
+	Ops        []int          `json:"ops,omitempty"`
+	Threads    [][]int        `json:"threads,omitempty"`
+	Choices    []int          `json:"choices,omitempty"`
+	PointVars  []string       `json:"point_vars,omitempty"`
+	Stride     map[string]int `json:"stride,omitempty"`
+	Tracking   bool           `json:"tracking,omitempty"`
+	Reps       int            `json:"reps,omitempty"`
+	NoGC       bool           `json:"nogc,omitempty"`       // mode "seq": garbage collector off (pools keep their objects)
+	Parked     int            `json:"parked,omitempty"`     // mode "parked": number of calls in flight
+	Gomaxprocs int            `json:"gomaxprocs,omitempty"` // mode "parked"
 }
 
 type c15acc struct {
@@ -985,16 +985,19 @@ func jobC15hist(c *rt.Ctx) {
 		}
 	}
 	c.Require("history/streak")
-	// calls in flight: k honest batches parked inside their entropy readers (k = 1..6, 8) at GOMAXPROCS 1,
+	// calls in flight: k honest batches parked inside their entropy readers (k = 1..6, 8, 16, 17, 63..65, 129, 257) at GOMAXPROCS 1,
 	// 16 and 32 while a forged-last-entry batch, a forged-entry-60 batch, a batch under a third context and
 	// a signature run to completion; every result == solo, every parked batch all-valid afterwards
 	c.Require("history/calls-in-flight")
 	for _, g := range []int{1, 16, 32} {
-		for _, k := range []int{1, 2, 3, 4, 5, 6, 8} {
+		for _, k := range []int{1, 2, 3, 4, 5, 6, 8, 16, 17, 63, 64, 65, 129, 257} {
+			if k > 8 && g != 16 && !c.Thorough() {
+				continue
+			}
 			if !c.Take() {
 				continue
 			}
-			ops := []int{opIx("Batch64BadLast"), opIx("Batch64Bad60"), opIx("Batch8ThirdCtx"), opIx("SignCtx"), opIx("Batch64BadLast")}
+			ops := []int{opIx("Batch4OneBad"), opIx("Batch64BadLast"), opIx("Batch64Bad60"), opIx("Batch8ThirdCtx"), opIx("SignCtx"), opIx("Batch64BadLast")}
 			resp, stderr, err := c15call(c15req{Mode: "parked", Ops: ops, Parked: k, Gomaxprocs: g})
 			c.Class("history/calls-in-flight")
 			c.Distinct(fmt.Sprintf("parked %d %d", g, k), true)
